@@ -168,6 +168,17 @@ pub fn compile_args<'a>(req: &'a ExecRequest) -> CompileArgs<'a> {
 }
 
 /// Splits a rendered error into (message, trace part)
+pub fn clip(text: &str, max: usize) -> &str {
+    if text.len() <= max {
+        return text;
+    }
+    let mut end = max;
+    while !text.is_char_boundary(end) {
+        end -= 1;
+    }
+    &text[..end]
+}
+
 pub fn split_error(full: &str) -> (String, String) {
     match full.find("\n--- ") {
         Some(i) => (full[..i].to_string(), full[i..].to_string()),
@@ -404,7 +415,8 @@ pub fn exec(req: &ExecRequest) -> Value {
                     resp.insert("internal_fault".into(), json!(tag));
                 }
                 resp.insert("error".into(), json!(msg));
-                resp.insert("trace".into(), json!(trace));
+                // a deep recursion leaves a trace of millions of frames: only its head travels to the driver
+                resp.insert("trace".into(), json!(clip(&trace, 20_000)));
             }
             Err(p) => {
                 resp.insert("outcome".into(), json!("panic"));
